@@ -222,3 +222,62 @@ package query
 //@   loop 1 modifies nothing
 //@   modifies * except F:query.View. E:query.Record# E:query.Cell# E:value.Primary# E:*query.SortValue# E:query.SortValues# F:query.SortValue.
 //@   modifies view.RecordSet
+
+// ---------------------------------------------------------------------------------------------
+// C06: arithmetic (docs/_posts/2006-01-02-arithmetic-operators.md)
+
+//@ invariant query_arith_singletons: errIntegerDevidedByZero != nil
+
+//@ spec def intArith(a int64, b int64, op int) int64 =
+//@     ite(op == '+', wrap64(a + b), ite(op == '-', wrap64(a - b), ite(op == '*', wrap64(a * b),
+//@     ite(op == '/', wrap64(a / b), ite(op == '%', a % b, 0)))))
+//@ spec def floatArith(a float64, b float64, op int) float64 =
+//@     ite(op == '+', a + b, ite(op == '-', a - b, ite(op == '*', a * b, ite(op == '/', a / b, ite(op == '%', math.Mod(a, b), 0.0)))))
+
+//@ func calculateInteger
+//@   property C06 C19
+//@   safety
+//@   ensures [division-by-zero-is-error] (operator == '/' || operator == '%') && i2 == 0 ==> result1 != nil && result0 == nil
+//@   ensures [no-other-error] !((operator == '/' || operator == '%') && i2 == 0) ==> result1 == nil
+//@   ensures [value] result1 == nil ==> is(result0, *value.Integer) && as(result0, *value.Integer).value == intArith(i1, i2, operator)
+//@   ensures [modulo-sign-and-magnitude] result1 == nil && operator == '%' ==>
+//@       (as(result0, *value.Integer).value == 0 || (as(result0, *value.Integer).value > 0) == (i1 > 0)) &&
+//@       ite(as(result0, *value.Integer).value < 0, 0 - as(result0, *value.Integer).value, as(result0, *value.Integer).value) < ite(i2 < 0, 0 - i2, i2)
+//@   modifies nothing
+
+//@ func calculateFloat
+//@   property C06
+//@   safety
+//@   ensures [value] is(result, *value.Float) && same(as(result, *value.Float).value, floatArith(f1, f2, operator))
+//@   modifies nothing
+
+//@ func Calculate
+//@   property C06 C14
+//@   safety
+//@   ensures [integer-when-both-integers] value.intStrictOk(p1) && value.intStrictOk(p2) && !((operator == '/' || operator == '%') && value.intStrictOf(p2) == 0) ==>
+//@       result1 == nil && is(result0, *value.Integer) && as(result0, *value.Integer).value == intArith(value.intStrictOf(p1), value.intStrictOf(p2), operator)
+//@   ensures [integer-division-by-zero] value.intStrictOk(p1) && value.intStrictOk(p2) && (operator == '/' || operator == '%') && value.intStrictOf(p2) == 0 ==> result1 != nil
+//@   ensures [float-otherwise] !(value.intStrictOk(p1) && value.intStrictOk(p2)) && value.floatOk(p1) && value.floatOk(p2) ==>
+//@       result1 == nil && is(result0, *value.Float) && same(as(result0, *value.Float).value, floatArith(value.floatOf(p1), value.floatOf(p2), operator))
+//@   ensures [null-iff-not-numeric] !(value.intStrictOk(p1) && value.intStrictOk(p2)) && !(value.floatOk(p1) && value.floatOk(p2)) ==> result1 == nil && result0 == value.null
+//@   ensures [numeric-never-null] value.floatOk(p1) && value.floatOk(p2) && result1 == nil ==> result0 != value.null
+//@   modifies nothing
+
+// agreement of float and integer arithmetic on integral operands, under the stated exactness of IEEE doubles
+//@ axiom f64_exact_add: forallv(a, int64, forallv(b, int64, small(a + b) && small(a) && small(b) ==> same(float64(a) + float64(b), float64(a + b))))
+//@ axiom f64_exact_sub: forallv(a, int64, forallv(b, int64, -9007199254740992 < a - b && a - b < 9007199254740992 && -9007199254740992 < a && a < 9007199254740992 && -9007199254740992 < b && b < 9007199254740992 ==> same(float64(a) - float64(b), float64(a - b))))
+//@ axiom f64_exact_mul: forallv(a, int64, forallv(b, int64, -9007199254740992 < a * b && a * b < 9007199254740992 && -9007199254740992 < a && a < 9007199254740992 && -9007199254740992 < b && b < 9007199254740992 ==> same(float64(a) * float64(b), float64(a * b))))
+//@ axiom f64_exact_mod: forallv(a, int64, forallv(b, int64, b != 0 && -9007199254740992 < a && a < 9007199254740992 && -9007199254740992 < b && b < 9007199254740992 && (a % b != 0 || a >= 0) ==> same(math.Mod(float64(a), float64(b)), float64(a % b))))
+//@ spec def small(a int64) bool = -9007199254740992 < a && a < 9007199254740992
+//@ lemma law_float_int_agree_add: forallv(a, int64, forallv(b, int64, small(a) && small(b) && small(a + b) ==>
+//@     same(floatArith(float64(a), float64(b), '+'), float64(intArith(a, b, '+')))))
+//@   property C06
+//@ lemma law_float_int_agree_sub: forallv(a, int64, forallv(b, int64, small(a) && small(b) && small(a - b) ==>
+//@     same(floatArith(float64(a), float64(b), '-'), float64(intArith(a, b, '-')))))
+//@   property C06
+//@ lemma law_float_int_agree_mul: forallv(a, int64, forallv(b, int64, small(a) && small(b) && small(a * b) ==>
+//@     same(floatArith(float64(a), float64(b), '*'), float64(intArith(a, b, '*')))))
+//@   property C06
+//@ lemma law_float_int_agree_mod: forallv(a, int64, forallv(b, int64, small(a) && small(b) && b != 0 && (a % b != 0 || a >= 0) ==>
+//@     same(floatArith(float64(a), float64(b), '%'), float64(intArith(a, b, '%')))))
+//@   property C06
